@@ -13,7 +13,7 @@ import (
 	"os"
 	"reflect"
 	"runtime"
-	"runtime/debug"
+
 	"sort"
 	"strings"
 	"sync"
@@ -569,6 +569,24 @@ func (s *c38Sys) canon() string {
 	return strings.Join(ts, ",") + " | " + strings.Join(hs, " ")
 }
 
+func (s *c38Sys) summary() string {
+	now := time.Now()
+	cnt := map[string]int{}
+	for i := range s.toks {
+		cnt[s.tokStatus(i, now)]++
+	}
+	hits := func(ip string) int {
+		n := 0
+		for _, h := range s.hits[ip] {
+			if h.After(now.Add(-s.cfg.window)) {
+				n++
+			}
+		}
+		return n
+	}
+	return fmt.Sprintf("live=%d expired=%d out=%d hitsA=%d hitsB=%d", cnt["live"]+cnt["edge"], cnt["expired"], cnt["out"], hits("A"), hits("B"))
+}
+
 // enabled lists the events offered after a history that issued ntoks tokens.
 func c38Enabled(cfg c38Cfg, ntoks int, routes []c38Route) []c38Ev {
 	var ev []c38Ev
@@ -601,6 +619,7 @@ func c38Enabled(cfg c38Cfg, ntoks int, routes []c38Route) []c38Ev {
 }
 
 type c38Result struct {
+	summary string // model state summary after the history (part of the outcome signature)
 	canon  string
 	ntoks  int
 	viol   []c38Viol
@@ -628,6 +647,7 @@ func c38Replay(t *testing.T, cfg c38Cfg, hist []c38Ev) (res c38Result) {
 		}
 		res.canon = s.canon()
 		res.ntoks = len(s.toks)
+		res.summary = s.summary()
 	})
 	return res
 }
@@ -640,9 +660,9 @@ type c38Node struct {
 func TestVerifC38(t *testing.T) {
 	rep := vh.New(t, "C38")
 	defer rep.Finish()
-	defer debug.SetGCPercent(debug.SetGCPercent(800)) // replays allocate a lot of short-lived garbage
+
 	cfg := c38ReadCfg(t)
-	rep.Rule = "states = canonical model states (issued tokens: live with remaining lifetime / expired / logged out / issued by a failed login; accepted login attempts per address within the window, as ages) reached by breadth-first search over event histories; every transition is one replay of the whole history on a fresh NewMux in its own synctest bubble; the oracle runs on the last event. signature = observation of the transition (event class, model status of the cookie, route, status code); non-trivial = the request/logout carried a token that was issued earlier (live, expired, logged out), or a login was answered 429"
+	rep.Rule = "states = canonical model states (issued tokens: live with remaining lifetime / expired / logged out / issued by a failed login; accepted login attempts per address within the window, as ages) reached by breadth-first search over event histories; every transition is one replay of the whole history on a fresh NewMux in its own synctest bubble; the oracle runs on the last event. signature = observation of the transition (event class, model status of the cookie, route, status code) | model state summary after it (tokens live/expired/logged out, attempts in window per address); non-trivial = the request/logout carried a token that was issued earlier (live, expired, logged out), or a login was answered 429"
 	rep.Assumptions = []string{
 		"states with equal model keys are merged: the implementation's state is assumed to be a function of the model state (request events lead back to the same key and are not expanded further); every replay, whatever its last event, is closed by a sweep of all protected routes x {no cookie, unknown token, every issued token} under the same oracle, so an effect of any event on the immediately following requests is observed",
 		"a request is 'answered' when the status is 2xx (streaming routes are called with an already cancelled context: 200 with no events), 'rejected' otherwise",
@@ -705,6 +725,7 @@ func TestVerifC38(t *testing.T) {
 		ord  int64
 	}
 	best := map[string]violRec{}
+	sampled := map[string]bool{}
 	vcount := map[string]int64{}
 	workers := runtime.GOMAXPROCS(0)
 	capped := false
@@ -762,9 +783,10 @@ func TestVerifC38(t *testing.T) {
 				transitions++
 				rep.Eval(1)
 				nontriv := strings.Contains(last, "cookie=live") || strings.Contains(last, "cookie=expired") || strings.Contains(last, "cookie=out") || strings.Contains(last, "cookie=edge") || strings.Contains(last, "429")
-				rep.Outcome(last, nontriv)
+				rep.Outcome(last+" | "+r.summary, nontriv)
 				h := append(append([]c38Ev(nil), frontier[i].hist...), o.evs[k])
-				if nontriv && rep.WantSample() && len(h) >= 3 {
+				if nontriv && len(h) >= 3 && !sampled[last] && rep.WantSample() {
+					sampled[last] = true
 					var hs []string
 					for _, e := range h {
 						hs = append(hs, e.String())
